@@ -25,6 +25,7 @@ def truncate_chars(c):
     )
     c.raises()
     c.cover("short", lambda r: L(val.t) <= num.t)
+    c.crosscheck()
     c.cover("long", lambda r: L(val.t) > num.t)
     c.replay(
         "call",
